@@ -68,8 +68,10 @@ type Task struct {
 	noYield  int // >0: atomic section, plain yields do not park
 	children int
 	timedOut bool
+	lockID   uintptr // identity of the mutex a lock / rlock yield waits for (receiver of its TryLock)
 
 	// controller side
+	announced       bool // a blocked writer whose Lock call has been "made": new readers of its RWMutex wait
 	weight          float64
 	seenState       int
 	blocked         bool // natively blocked (running after Wait)
@@ -134,6 +136,10 @@ func (t *Task) parkYield(kind int, try func() bool, undo func(), site string) {
 	t.site = site
 	t.try = try
 	t.undo = undo
+	t.lockID = 0
+	if kind == KLock || kind == KRLock {
+		t.lockID = recvOf(try)
+	}
 	t.probed = false
 	t.state = tsParked
 	t.waitResume()
@@ -202,6 +208,19 @@ func (t *Task) getSite() (int, string) { return t.kind, t.site }
 
 //go:norace
 func (t *Task) getProbe() (bool, bool) { return t.probed, t.probeOK }
+
+// recvOf: the receiver bound into a method value (X.TryLock): the second word of its closure.
+// Only compared for equality, never dereferenced.
+func recvOf(f func() bool) uintptr {
+	if f == nil {
+		return 0
+	}
+	p := *(**[2]uintptr)(unsafe.Pointer(&f))
+	return p[1]
+}
+
+//go:norace
+func (t *Task) getLock() (int, uintptr) { return t.kind, t.lockID }
 
 //go:norace
 func (t *Task) isLockWait() bool {
